@@ -237,6 +237,24 @@ class Facts:
                     return False
         return True
 
+    def root_callers(self, path):
+        """the functions at which the caller chains of a context-bound helper / closure start (the helper's own path if it is neither)"""
+        hs = self.helpers()
+        roots, seen, work = set(), set(), [path]
+        while work:
+            p = work.pop()
+            if p in seen:
+                continue
+            seen.add(p)
+            f = self.fn_by_path.get(p)
+            if f is not None and f.kind == "Closure":
+                work.append(f.d.get("parent") or "?")
+            elif p in hs:
+                work.extend(hs[p])
+            else:
+                roots.add(p)
+        return roots
+
     def impls_of(self, trait_short, struct_short=None):
         out = []
         for i in self.impls:
